@@ -85,7 +85,10 @@ def rel_inv(rng):
         inv.universe.add('zsel')
         roots = ['zsel'] + roots
     inv.refvals = refvals
-    inv.nodes[('n.yml',)] = G.doc(roots, [], ('m', [(S('trace'), L(S('NODE')))]))
+    # the node file itself may live in a sub-directory of the nodes directory (named like a class directory
+    # or not): a node's relative includes are still taken from the root of the class tree
+    npath = rng.choice([('n.yml',), ('n.yml',), ('a', 'n.yml'), ('a', 'b', 'n.yml'), ('d', 'n.yml'), ('site', 'n.yml'), ('_t', 'n.yml')])
+    inv.nodes[npath] = G.doc(roots, [], ('m', [(S('trace'), L(S('NODE')))]))
     return inv
 
 
@@ -132,6 +135,6 @@ def run(tier, rng, C):
         return fails
     rule = ('exhaustive: abs_class_name for every location of depth <= 3 over {a,b,c}, 0-6 leading dots, 6 suffix shapes (through the '
             'hook); %d twin inventories (class trees of depth <= 3 with init classes, includes written relatively incl. past-root '
-            'dot counts, nodes with leading dots) rendered with relative names and with the absolute names they denote; oracle: '
+            'dot counts, nodes with leading dots, node files in sub-directories of the nodes directory) rendered with relative names and with the absolute names they denote; oracle: '
             'twin outputs identical; non-trivial = >= 2 dots or a relative twin' % ntw)
     return C.standard_run(cases, rule, key_fn=lambda c, m, i, r: 'model-impl-differ', extra_oracle=oracle, exhaustive=True)
